@@ -409,17 +409,19 @@ def stv_initials(name):
 
 def stv_sval(value):
     """a header value with the classifications `_create_evaluator` applies to it (lexing is Python's)"""
-    digits, udigit, intv = None, False, None
-    if value.isdigit():
-        try:
-            digits = str(int(value))
-        except ValueError:
-            udigit = True
+    digits, intv = None, None
+    if value.isdecimal():
+        digits = str(int(value))
     try:
         intv = str(int(value))
     except ValueError:
         pass
-    return {'text': value, 'digits': digits, 'udigit': udigit, 'int': intv}
+    return {'text': value, 'digits': digits, 'int': intv}
+
+
+def stv_carriable(text, allow_empty=True):
+    """what a `key=value` header line gives back unchanged: no comment sign, no line break, no edge whitespace"""
+    return text == text.strip() and not any(c in text for c in '#\n\r') and bool(text or allow_empty)
 
 
 def stv_hline(line):
@@ -434,11 +436,8 @@ def stv_hline(line):
     if key == 'ballots':
         if value == 'blt':
             return 'ballotsBlt'
-        if value.isdigit():
-            try:
-                return {'ballots': int(value)}
-            except ValueError:
-                return 'UNSUPPORTED'
+        if value.isdecimal():
+            return {'ballots': int(value)}
         return 'ballotsBad'
     if key == 'order':
         return {'order': value.split()}
@@ -473,11 +472,11 @@ def stv_vline(line):
             else:
                 first = 'multBad'
         except ZeroDivisionError:
-            first = 'multZero'
+            first = 'multBad'
         except ValueError:
             first = 'multBad'
         except InvalidOperation:
-            return 'UNSUPPORTED'          # the real reader lets decimal.InvalidOperation through here
+            first = 'multBad'
     else:
         first = {'word': f}
     return {'first': first, 'rest': items[1:]}
@@ -506,7 +505,7 @@ def stv_tokenise(text):
 
 def stv_weight_model(w):
     x = weight_py(w)
-    s = str(x)
+    s = format(x, 'f') if isinstance(x, Decimal) else str(x)      # the writer spells a Decimal without exponent
     ok = True
     try:
         if '/' in s:
